@@ -227,6 +227,7 @@ inline Outcome compare_session(const Case& c, Violations& V, Stats& S, const cha
     std::vector<bytes> stack = P.stack, copy;
     Err re = Err::OK;
     bool impl_failed = false;
+    bytes last_script; bool redeem_ran = false;
     for (size_t ph = 0; ph < P.scripts.size() + (P.p2sh ? 1 : 0); ph++) {
         bytes script;
         if (ph < P.scripts.size()) script = P.scripts[ph];
@@ -248,6 +249,33 @@ inline Outcome compare_session(const Case& c, Violations& V, Stats& S, const cha
             if (e != "") { rep("step-outcome:switch;ref=OK;impl=" + e, "script switch failed"); O.err = e; return O; }
             if (bytes(env.script.begin(), env.script.end()) != script) { rep(std::string("switch:script:") + tk, "script after the switch differs: " + hex(bytes(env.script.begin(), env.script.end()))); return O; }
             if (env.stack != stack) { rep(std::string("switch:stack:") + tk, "stack after the switch differs: impl " + impl::stack_str(env.stack) + " ref " + impl::stack_str(stack)); return O; }
+        }
+        last_script = script; redeem_ran = ph == 2;
+        if (P.sv == SigVer::TAPSCRIPT) {
+            // BIP342: a leaf that contains an OP_SUCCESSx opcode succeeds without being executed (fails when that is discouraged);
+            // the session walks over its operations without effect
+            bool succ = false; size_t nops = 0, upto = 0;
+            for (size_t q = 0; q < script.size();) { Op o = decode_op(script, q); if (!o.ok) break; if (!succ && is_op_success(o.code)) succ = true; q = o.end; nops++; upto = q; }
+            if (succ && upto == script.size()) {
+                char sk[64]; snprintf(sk, 64, "tapscript-op-success:%s", c.klass.c_str());
+                if (c.flags & F_DISCOURAGE_OP_SUCCESS) {
+                    std::string e = step_impl();
+                    if (e != "DISCOURAGE_OP_SUCCESS") { rep(std::string(sk) + ":must-fail-discouraged", "a leaf containing OP_SUCCESSx must fail with DISCOURAGE_OP_SUCCESS before anything runs; first step reports " + (e == "" ? std::string("success") : e)); return O; }
+                    S.invalid++; S.outcomes["invalid:tapscript-op-success-discouraged"]++;
+                    if (have_rv && rv == Err::OK) rep("invalid-verdict-for-valid-spend:" + P.type + ":" + c.klass, "validation accepts but the session fails");
+                    return O;
+                }
+                for (size_t i = 0; i < nops; i++) {
+                    std::string e = step_impl();
+                    if (e != "") { rep(std::string(sk) + ":must-succeed", "a leaf containing OP_SUCCESSx succeeds unconditionally; step " + std::to_string(i) + " reports " + e); return O; }
+                    if (env.stack != stack) { rep(std::string(sk) + ":operation-had-effect", "step " + std::to_string(i) + " over a leaf containing OP_SUCCESSx changed the stack"); return O; }
+                }
+                std::string fe2 = step_impl();
+                if (fe2 != "" || !inst.at_end()) { rep(std::string(sk) + ":verdict", "verdict step over a leaf containing OP_SUCCESSx reports " + (fe2 == "" ? std::string("not done") : fe2)); return O; }
+                O.all_steps_ok = true; O.valid = true; S.valid++; S.outcomes["valid:tapscript-op-success"]++;
+                if (have_rv && rv != Err::OK && !(is_taproot_plan(P) && !can_check_taproot)) rep("valid-verdict-for-invalid-spend:" + P.type + ":" + c.klass + ":" + err_name(rv), "validation says " + std::string(err_name(rv)) + " but the session ends valid");
+                return O;
+            }
         }
         if ((P.sv == SigVer::BASE || P.sv == SigVer::WITNESS_V0) && script.size() > MAX_SCRIPT) { re = Err::SCRIPT_SIZE; break; }
         Machine m; m.sv = P.sv; m.flags = c.flags; m.script = script; m.stack = stack; m.checker = &ck; m.ed = P.ed;
@@ -283,6 +311,25 @@ inline Outcome compare_session(const Case& c, Violations& V, Stats& S, const cha
     }
     // end of session: final verdict step
     bool impl_ok = false; std::string fe;
+    // a legacy evaluation (the input has no witness) that ends on a witness program - the output itself or the redeem script of a
+    // P2SH output: validation applies the witness rules to the empty witness, and bypasses the clean-stack rule when they pass
+    Err wpe = Err::OK; bool ends_on_program = false;
+    if (re == Err::OK && P.type == "legacy" && P.scripts.size() > 1 && (c.flags & F_WITNESS)) {
+        int ver; bytes prog;
+        if (is_witness_program(last_script, ver, prog)) {
+            ends_on_program = true;
+            if (!redeem_ran && !P.scripts[0].empty()) wpe = Err::WITNESS_MALLEATED;
+            else if (redeem_ran && P.scripts[0] != push_raw(last_script)) wpe = Err::WITNESS_MALLEATED_P2SH;
+            else wpe = verify_witness_program({}, ver, prog, c.flags, ck, redeem_ran);
+        }
+    }
+    if (re == Err::OK && wpe != Err::OK) {
+        fe = step_impl();
+        if (fe != err_name(wpe)) { rep(std::string("final-verdict:witness-program-without-witness;ref=") + err_name(wpe) + ";impl=" + (fe == "" ? "OK" : fe), "the evaluation ends on a witness program and the input has no witness: validation reports " + std::string(err_name(wpe)) + ", the final step reports " + (fe == "" ? "success" : fe)); return O; }
+        S.invalid++; S.outcomes["invalid:legacy:witness-program-without-witness"]++;
+        if (have_rv && rv == Err::OK) rep("invalid-verdict-for-valid-spend:legacy:" + c.klass, "the reference model of the session and validation disagree");
+        return O;
+    }
     if (re == Err::OK) {
         fe = step_impl();
         impl_ok = fe == "" && inst.at_end();
@@ -298,7 +345,7 @@ inline Outcome compare_session(const Case& c, Violations& V, Stats& S, const cha
     // validity: "finishes without error and with the final stack validation requires"
     bool witness_type = P.sv != SigVer::BASE;
     const auto& fs = env.stack;
-    O.valid = O.all_steps_ok && !fs.empty() && cast_to_bool(fs.back()) && ((!witness_type && !(c.flags & F_CLEANSTACK)) || fs.size() == 1);
+    O.valid = O.all_steps_ok && !fs.empty() && cast_to_bool(fs.back()) && ((!witness_type && !(c.flags & F_CLEANSTACK)) || fs.size() == 1 || ends_on_program);
     (O.valid ? S.valid : S.invalid)++;
     S.outcomes[std::string(O.valid ? "valid:" : "invalid:") + P.type]++;
     if (have_rv && !(is_taproot_plan(P) && !can_check_taproot)) {
